@@ -30,7 +30,7 @@ class FrontendLoop:
 
     def havoc(self, interp, env, k, phase):
         xs = env.get('x_summed')
-        env.set('x_summed', symbolic_array('x_summed_h', xs.shape, 'complex' if self.cplx else 'real'))
+        env.set('x_summed', symbolic_array('x_summed_h', xs.shape, xs.dtype))    # same dtype as the real buffer
         env.vars.pop('x_weighted', None)
         env.vars.pop('t', None)
 
